@@ -31,12 +31,23 @@ CheckBorrow(r) ==
   ELSE IF ~r.transformed /\ r.style \in {"p", "s", "d"} /\ ~r.borrowed_ok THEN "verbatim-not-lent"
   ELSE IF r.transformed /\ r.borrowed_ok /\ ~r.verbatim THEN "transformed-lent"
   ELSE "ok"
+(* encoded input (UTF-8 with a BOM, UTF-16): the raw length and the decoded length differ, and the property does not say  *)
+(* which of the two the cap counts.  Below both the call must fail; at or above both (BOM counted) it must be unaffected; *)
+(* in between it may fail, but a value it returns is never one built from a truncated prefix.                              *)
+Min2(a, b) == IF a < b THEN a ELSE b
+Max2(a, b) == IF a > b THEN a ELSE b
+CheckEnc(r) ==
+  LET lo == Min2(r.raw_len, r.dec_len)  hi == Max2(r.raw_len, r.dec_len + 3) IN
+  IF r.cap < lo THEN (IF r.out.res # "err" THEN "cap-ignored" ELSE IF r.pulled > r.cap + Allowance THEN "drained-past-cap" ELSE "ok")
+  ELSE IF r.out.res = "ok" THEN (IF SameOutcome(r.out, r.reff) THEN "ok" ELSE "value-from-truncated-input")
+  ELSE IF r.cap >= hi THEN (IF SameOutcome(r.out, r.reff) THEN "ok" ELSE "affected-by-a-cap-it-fits-under")
+  ELSE "ok"
 CheckDrain(r) == IF r.out.res # "err" THEN "cap-ignored" ELSE IF r.pulled > r.cap + Allowance THEN "drained-past-cap" ELSE "ok"
 (* writer: a failing writer makes serialization fail, and what was accepted is a prefix of the fault-free output *)
 CheckWriter(r) == IF r.res # "err" THEN "write-fault-swallowed"
                   ELSE IF Len(r.received) > Len(r.full) \/ SubSeq(r.full, 1, Len(r.received)) # r.received THEN "not-a-prefix"
                   ELSE "ok"
-Check(r) == CASE r.kind = "sched" -> CheckSched(r) [] r.kind = "writer" -> CheckWriter(r) [] r.kind = "borrow" -> CheckBorrow(r) [] r.kind = "drain" -> CheckDrain(r) [] OTHER -> "ok"
+Check(r) == CASE r.kind = "sched" -> CheckSched(r) [] r.kind = "writer" -> CheckWriter(r) [] r.kind = "borrow" -> CheckBorrow(r) [] r.kind = "drain" -> CheckDrain(r) [] r.kind = "enc" -> CheckEnc(r) [] OTHER -> "ok"
 Init == l = 1 /\ TLCSet(1, 0)
 Next == /\ l <= Len(Recs)
         /\ LET r == Recs[l]  c == Check(r) IN
